@@ -76,13 +76,17 @@ class CoreCheck(Check):
 # ---------------------------------------------------------------- trace structure
 def categorize(lines):
     """-> list of (category, line): r-lines get the name of the call they answer"""
-    res = []; stack = []
+    res = []; stack = []; foreign = False
     for l in lines:
+        if l == '> foreign':
+            foreign = True; continue
         if l.startswith('> '):
-            stack.append(l[2:]); continue
+            stack.append(('F:' if foreign else '') + l[2:]); foreign = False; continue
         if re.match(r'^r-?\d+$', l):
             name = stack.pop() if stack else '?'
-            res.append(('ret:' + name, l)); continue
+            if name.startswith('F:'): res.append(('fret:' + name[2:], l))
+            else: res.append(('ret:' + name, l))
+            continue
         if l.startswith('cb '):
             t = l.split(); res.append(('cb:' + t[2], l)); stack.append('{'); continue
         if l == '}':
@@ -107,6 +111,8 @@ class Proj:
                 name = cat[4:]
                 if name in self.exact: out.append(name + ' ' + l)
                 elif name in self.rets or self.allrets: out.append(name + ' ' + re.sub(r'^r-\d+$', 'r-', l))
+            elif cat.startswith('fret:'):
+                out.append('foreign ' + cat[5:] + ' ' + l)       # calls made by a foreign thread: always the exact code
             elif cat.startswith('cb:'):
                 if self.cb: 
                     x = self.cb(cat[3:], l)
@@ -328,6 +334,27 @@ class C13(CoreProp):
     rule = ('corpus + random programs with batch sizes 0..5, batch timeouts (fired by the script), low/normal/high priority subscriptions and '
             'descriptor sources, pause/resume/stop and setting changes between arrivals; non-trivial = distinct script with a batching setter and >= 2 deliveries')
 
+MOD_OPS = {'start', 'stop', 'pause', 'resume', 'dereg', 'sub', 'unsub', 'tell', 'publish', 'broadcast', 'pill', 'become', 'unbecome', 'unstash',
+           'stash', 'batchsize', 'batchtimeout', 'tb', 'srcreg', 'srcdereg', 'srclen'}
+def mon_foreign(case, ctr):
+    """every module operation / pub-sub call made by a foreign thread fails"""
+    res = []
+    for cat, l in categorize(ctr):
+        if cat.startswith('fret:') and cat[5:].split()[0] in MOD_OPS and not l.startswith('r-'):
+            res.append(('a foreign thread called %s on a module of another context and got %s' % (cat[5:], l), None))
+    return res
+
+class C14(CoreProp):
+    scenario = staticmethod(GC.gen_foreign_case)
+    pid = 'C14'; props_file = 'Props_C14'; focus = {'foreign', 'ps', 'life'}
+    proj = Proj(allrets=True, keep=('state', 'val'), cb=cb_full)
+    rule = ('corpus + random programs in which module operations and pub/sub calls are ALSO made by another thread (holding its own context or '
+            'none) while the owner is inside the module\'s own callback, inside another callback or outside callbacks, followed by probes of the '
+            'module (subscriptions, sources, state, handler stack, deliveries); non-trivial = distinct script with >= 1 foreign module call')
+    def monitors(self, case, ctr): return mon_foreign(case, ctr)
+    def nontrivial(self, case, ctr):
+        return ctr is not None and any(c.startswith('fret:') and c[5:].split()[0] in MOD_OPS for c, _ in categorize(ctr))
+
 class C15(CoreProp):
     pid = 'C15'; props_file = 'Props_C15'; focus = {'names', 'deny', 'ctx'}
     proj = Proj(exact=('reg',), rets=('dereg', 'publish', 'tell', 'broadcast', 'pill', 'sub', 'unsub', 'ctxlen', 'quit', 'finalize', 'dispatch', 'ctxdereg', 'stats'),
@@ -400,4 +427,4 @@ class C20(CoreProp):
         return out
     def nontrivial(self, case, ctr): return ctr is not None and any(l.startswith('live ') and not l.endswith('fd=0') for l in ctr)
 
-REGISTRY = {c.pid: c() for c in (C01, C02, C03, C04, C07, C08, C09, C13, C15, C16, C17, C18, C19, C20)}
+REGISTRY = {c.pid: c() for c in (C01, C02, C03, C04, C07, C08, C09, C13, C14, C15, C16, C17, C18, C19, C20)}
